@@ -8,7 +8,8 @@
    exhibit, for each, a concrete input on which it did not have the property. *)
 From Coq Require Import List NArith Bool Lia Permutation.
 From AdltV Require Import Base.Res Base.MachInt Remote.Stream Remote.StreamProofs Remote.StreamSearchProofs
-  Remote.StreamSendProofs Remote.StreamFast Remote.StreamFastProofs Remote.StreamFilters Remote.StreamFiltersProofs Exec.C16.
+  Remote.StreamSendProofs Remote.StreamFast Remote.StreamFastProofs Remote.StreamFilters Remote.StreamFiltersProofs
+  Remote.StreamTimes Remote.StreamTimesProofs Exec.C16.
 Import ListNotations.
 Open Scope N_scope.
 
@@ -288,6 +289,91 @@ Section Statements.
   Proof. intros Hi. exact (lookup_index_sorted_first_not_before index_of all s Hi idx). Qed.
 End Statements.
 
+(* ---------------------------------------------------------------- the time base of the time lookup *)
+(* binary_search_by_time_us computes the time of a message from the lifecycle table (Remote/StreamTimes.v): it fills a map
+   lifecycle id -> `start_time` and takes start_time + timestamp_us(), the reception time for a message without entry.
+   [entry_last id tab] is the table's entry with that id. *)
+Section TimeBase.
+  Context {M : Type}.
+  Variable lc_of ts_us_of rt_of : M -> N.   (* m.lifecycle, m.timestamp_us(), m.reception_time_us *)
+
+  (* the key of a message *)
+  Theorem C16_lookup_time_key_from_start_time (tab : list lc_entry) (m : M) :
+    msg_time lc_of ts_us_of rt_of tab m =
+    match entry_last (lc_of m) tab with
+    | Some e => lc_start e + ts_us_of m
+    | None => rt_of m
+    end.
+  Proof. exact (msg_time_spec lc_of ts_us_of rt_of tab m). Qed.
+
+  (* what the lookup takes from a lifecycle table entry: the field start_time and nothing else.  Two tables whose entries
+     agree on start_time (and on presence) under the lifecycle ids of the messages of all_msgs - whatever else differs:
+     being a resume, the start recorded for the resumed lifecycle and with it resume_start_time() (the start time that is
+     SENT TO THE CLIENT in BinLifecycle) - give the same answer for every stream and every requested time *)
+  Theorem C16_lookup_time_reads_only_start_time (tab1 tab2 : list lc_entry) (all : list M) (s : sctx M) t :
+    (forall m, In m all ->
+       option_map lc_start (entry_last (lc_of m) tab1) = option_map lc_start (entry_last (lc_of m) tab2)) ->
+    lookup_time_tab lc_of ts_us_of rt_of tab1 all s t = lookup_time_tab lc_of ts_us_of rt_of tab2 all s t.
+  Proof. exact (lookup_time_reads_only_start_time lc_of ts_us_of rt_of tab1 tab2 all s t). Qed.
+
+  (* the time lookup under exactly the fact its partition_point relies on - all_msgs is partitioned by "time < t", which
+     every log ordered by time is for every t -: the position of the first stream message not before [t], the time of a
+     message being start_time(lifecycle) + timestamp *)
+  Theorem C16_lookup_time_table_first_not_before (tab : list lc_entry) (all : list M) (s : sctx M) t :
+    let time := msg_time lc_of ts_us_of rt_of tab in
+    inv all s -> partitioned_at all time t ->
+    let p := lookup_time_tab lc_of ts_us_of rt_of tab all s t in
+    p <= stream_len s (len all) /\
+    (forall q m, q < p -> stream_msg all s q = Ok m -> time m < t) /\
+    (forall q m, p <= q -> stream_msg all s q = Ok m -> t <= time m).
+  Proof. cbv zeta. exact (lookup_time_tab_first_not_before lc_of ts_us_of rt_of tab all s t). Qed.
+
+  Theorem C16_time_ordered_is_partitioned_at_every_time (time_of : M -> N) (all : list M) t :
+    time_ordered time_of all -> partitioned_at all time_of t.
+  Proof. exact (time_ordered_partitioned_at all time_of t). Qed.
+
+  (* resume_start_time() differs from start_time only on a resumed entry whose start is at or before the start recorded for
+     its origin: on every table without such an entry the presented time of every message is its time *)
+  Theorem C16_presented_start_differs_only_for_moved_resumes (tab : list lc_entry) (m : M) :
+    forallb (fun e => negb (moved_resume e)) tab = true ->
+    msg_time_presented lc_of ts_us_of rt_of tab m = msg_time lc_of ts_us_of rt_of tab m.
+  Proof. exact (presented_time_differs_only_by_moved_resumes lc_of ts_us_of rt_of tab m). Qed.
+End TimeBase.
+
+(* ... and it matters: lifecycle 1 (start 100), lifecycle 2 resumes it, its start was moved to 95 (resume_start_time() = 101).
+   The 15 messages (lifecycle, timestamp, reception) are ordered by time (101 .. 115).  Requested time 110: the code answers 9,
+   the first message not before 110; keyed by resume_start_time() the answer would be 5, a message of time 106 *)
+Theorem C16_resume_start_time_is_not_the_lookup_key :
+  map (msg_time w_lc w_ts w_rt w_tab) w_all = [101; 102; 103; 104; 105; 106; 107; 108; 109; 110; 111; 112; 113; 114; 115] /\
+  lookup_time_tab w_lc w_ts w_rt w_tab w_all w_s 110 = 9 /\
+  lookup_time_presented w_lc w_ts w_rt w_tab w_all w_s 110 = 5 /\
+  option_map (msg_time w_lc w_ts w_rt w_tab) (nthN w_all 5) = Some 106.
+Proof.
+  destruct w_times as [H1 _]. destruct w_lookups as [H2 [H3 [H4 _]]]. repeat split; assumption.
+Qed.
+
+(* non-vacuity: the hypothesis of C16_lookup_time_reads_only_start_time on two tables that differ in everything but
+   start_time (the second one knows nothing of a resume and has a further entry), and the partition at the requested time *)
+Example C16_nonvacuous_time_base :
+  let tab2 := [ {| lc_id := 7; lc_start := 3; lc_resume := Some 9 |}; {| lc_id := 2; lc_start := 95; lc_resume := None |};
+                {| lc_id := 1; lc_start := 100; lc_resume := Some 5 |} ] in
+  (forall m, In m w_all ->
+     option_map lc_start (entry_last (w_lc m) w_tab) = option_map lc_start (entry_last (w_lc m) tab2)) /\
+  partitioned_at w_all (msg_time w_lc w_ts w_rt w_tab) 110 /\
+  lookup_time_tab w_lc w_ts w_rt tab2 w_all w_s 110 = 9.
+Proof.
+  cbv zeta. split; [|split].
+  - intros m Hm. cbn in Hm. repeat (destruct Hm as [Hm|Hm]; [subst m; vm_compute; reflexivity|]). contradiction.
+  - apply time_ordered_partitioned_at. intros i j a b Hij Ha Hb.
+    assert (Hs : forall k x, nthN w_all k = Some x -> msg_time w_lc w_ts w_rt w_tab x = 101 + k).
+    { intros k x Hk. pose proof (nthN_some_lt _ _ _ Hk) as Hlt. change (len w_all) with 15 in Hlt.
+      assert (Hk' : exists n, (n < 15)%nat /\ k = N.of_nat n) by (exists (N.to_nat k); lia).
+      destruct Hk' as [n [Hn ->]]. unfold nthN in Hk. rewrite Nat2N.id in Hk.
+      do 15 (destruct n as [|n]; [inversion Hk; subst x; vm_compute; reflexivity|]). lia. }
+    rewrite (Hs i a Ha), (Hs j b Hb). lia.
+  - vm_compute. reflexivity.
+Qed.
+
 (* ---------------------------------------------------------------- the code before the repairs did not have the property *)
 Theorem C16_before_fix_search_skipped_a_position :
   stream_search_prefix d_all d_filtered 0 1 d_fs = Ok ([0], Some 2) /\
@@ -337,7 +423,7 @@ Proof. cbv zeta. split; eexists _, _; (split; [vm_compute; reflexivity|vm_comput
 Example C16_nonvacuous_rejected :
   let log := expand [(6, 1, 1)] in
   let ops := [ONew true true (cfset []) 0 2; OTick log true; OReject; OWindow 7 0 1; OReject; OWindow 1 3 5; OTick [] true] in
-  exists sv evs, c_run false (server0 1) ops = Ok (sv, evs) /\
+  exists sv evs, c_run [] false (server0 1) ops = Ok (sv, evs) /\
     map c_index (delivered 1 evs) = [0; 1] /\ map c_index (delivered 2 evs) = [3; 4] /\
     filter is_error_reply evs = [EErr; EErr; EErr] /\ map (@s_id cmsg) (sv_streams sv) = [2].
 Proof. cbv zeta. eexists _, _. split; [vm_compute; reflexivity|]. repeat split; vm_compute; reflexivity. Qed.
@@ -434,8 +520,8 @@ Proof. exact unguarded_disabled_filter_is_wrong. Qed.
    filters of the correspondence cases (Exec/C16.v) are instances of the parse model *)
 Example C16_nonvacuous_filter_set :
   let fs := [(3, 1, 1, 1); (0, 0, 1, 2); (3, 1, 2, 1); (0, 1, 0, 0); (1, 2, 1, 1); (3, 0, 2, 0); (2, 1, 0, 1)] in
-  let log := expand_file [(1, 1, 0, 0, 0, 0, 0); (1, 1, 1, 0, 0, 0, 1); (1, 1, 2, 0, 0, 0, 2); (1, 1, 1, 1, 0, 0, 3);
-                          (1, 2, 1, 0, 0, 0, 4); (1, 1, 2, 0, 0, 0, 5)] in
+  let log := expand_file [(1, 1, 0, 0, 0, 0, 0, 0, 0, 0); (1, 1, 1, 0, 0, 0, 0, 0, 0, 1); (1, 1, 2, 0, 0, 0, 0, 0, 0, 2);
+                          (1, 1, 1, 1, 0, 0, 0, 0, 0, 3); (1, 2, 1, 0, 0, 0, 0, 0, 0, 4); (1, 1, 2, 0, 0, 0, 0, 0, 0, 5)] in
   matching (cfset fs) log = [1; 2; 5] /\
   matching (cfset (filter cf_enabled fs)) log = [1; 2; 5] /\
   matching (cfset (rev fs)) log = [1; 2; 5].
@@ -461,7 +547,7 @@ Example C16_nonvacuous_session :
   let log := expand [(2, 1, 0); (3, 1, 1); (1, 1, 0); (2, 1, 1)] in
   let ops := [ONew true true (cfset [(0, 1, 1, 1)]) 1 3; OTick (firstN 4 log) false; OWindow 1 0 10;
               OTick (skipN 4 log) false; ONew false true (cfset [(0, 1, 0, 1)]) 0 2; OTick [] true] in
-  exists sv evs, c_run false (server0 1) ops = Ok (sv, evs) /\
+  exists sv evs, c_run [] false (server0 1) ops = Ok (sv, evs) /\
     map c_index (delivered 1 evs) = [3] /\                (* the old id: position 1 only, then renewed *)
     map c_index (delivered 2 evs) = [2; 3; 4; 6; 7] /\    (* the new id: the whole window *)
     map c_index (delivered 3 evs) = [0; 1] /\ end_markers 3 evs = 1 /\
@@ -504,6 +590,13 @@ Print Assumptions C16_lookup_index_branch_time_sorted_unfiltered.
 Print Assumptions C16_search_by_index_in_time_order_is_wrong.
 Print Assumptions C16_lookup_index_first_not_before.
 Print Assumptions C16_lookup_index_sorted_first_not_before.
+Print Assumptions C16_lookup_time_key_from_start_time.
+Print Assumptions C16_lookup_time_reads_only_start_time.
+Print Assumptions C16_lookup_time_table_first_not_before.
+Print Assumptions C16_time_ordered_is_partitioned_at_every_time.
+Print Assumptions C16_presented_start_differs_only_for_moved_resumes.
+Print Assumptions C16_resume_start_time_is_not_the_lookup_key.
+Print Assumptions C16_nonvacuous_time_base.
 Print Assumptions C16_before_fix_search_skipped_a_position.
 Print Assumptions C16_before_fix_search_found_nothing_without_filters.
 Print Assumptions C16_before_fix_lookup_time_returned_last_of_equal.
